@@ -41,8 +41,29 @@ ASSGN = {"<start>": ["<stmt>"], "<stmt>": ["<assgn>", "<assgn> ; <stmt>"], "<ass
 NUMS = {"<start>": ["<list>"], "<list>": ["<num>", "<num>,<list>"], "<num>": ["<dig>", "<dig><num>"], "<dig>": ["0", "1", "2", "9"]}
 TEXT = {"<start>": ["<line>"], "<line>": ["<word>", "<word> <line>"], "<word>": ["<ch>", "<ch><word>"], "<ch>": ["a", "b", '"', "\\", "\n", "\t", "ä", "'", "{", "}", "<"]}
 
+CRLF = {"<start>": ["<rec>"], "<rec>": ["<fld>\r\n", "<fld>\r\n<rec>"], "<fld>": ["<w>", "<w> \n<fld>", "<w>\x0c<fld>"], "<w>": ["a", "b", "7"]}
+
 SUGAR = {
+    "crlf": [
+        '<rec>.<fld> = "a"',
+        '<rec>.<fld>.<w> = "b"',
+        '<fld>.<fld>.<w> = "7"',
+        'forall <rec> r: r.<fld>.<w> = "a"',
+        'exists <fld> f: (f.<fld>.<w> = "b" and f.<w> = "a")',
+        'forall <rec> r="{<fld> f}\r\n<rec>" in start: (not (f = "a"))',
+        'forall <fld> f="{<w> x} \n{<fld> y}" in start: (not (= x y))',
+        'forall <fld> f="{<w> x}\x0c<fld>" in start: (= x "7")',
+    ],
     "assgn": [
+        'forall <assgn> asg="{<var> lhs} := {<rhs> rhs}" in start: ((lhs = "a" implies rhs = "1") and (lhs = "a" implies not (rhs = "b")))',
+        'forall <assgn> asg="{<var> lhs} := {<rhs> rhs}" in start: ((lhs = "a" and rhs = "1") or (lhs = "a" and rhs = "7") or (lhs = "a" and rhs = "b"))',
+        '(<var> = "a" implies <digit> = "1") and (<var> = "a" implies not(<rhs> = "b"))',
+        '(<var> = "a" and <digit> = "1") or (<var> = "a" and <digit> = "7")',
+        'forall <var> v in start: ((v = "a" or v = "b") and (v = "a" or v = "c") and not (v = "a" and v = "b"))',
+        'forall <var> v in start: has_text(v, "a")',
+        'forall <var> v in start: (has_text(v, "\\t") or has_text(v, "\\\\") or has_text(v, "a\\nb"))',
+        'exists <var> v in start: has_text(v, "\\"a\\"")',
+        'exists <rhs> v in start: (has_text(v, "\\x41") and not has_text(v, "a b"))',
         '<var> = "a"',
         'str.len(<start>) > 3',
         'str.len(<start>) >= 8 and <var> = "b"',
@@ -152,6 +173,19 @@ def erase_smt(nf):
     return [erase_smt(x) if isinstance(x, list) else x for x in nf]
 
 
+_HAS_TEXT = []
+
+
+def has_text_predicate():
+    """a user-defined structural predicate with a free-text string argument (the standard ones only take nonterminals,
+    numerals and comparison keywords): has_text(node, "text")"""
+    if not _HAS_TEXT:
+        from isla.language import StructuralPredicate
+
+        _HAS_TEXT.append(StructuralPredicate("has_text", 2, lambda tree, path, s: str(tree.get_subtree(path)) == s))
+    return _HAS_TEXT[0]
+
+
 def gen_tree_for(rng, g):
     c = G.canon(g)
     return [T.gen_tree(rng, c, "<start>", rng.randint(2, 6), T.IdGen()) for _ in range(3)]
@@ -161,7 +195,7 @@ def check_text(ctx: Ctx, g, gname: str, text: str, trees, origin: str):
     from isla.language import parse_isla, unparse_isla
     from isla.isla_predicates import STANDARD_STRUCTURAL_PREDICATES, STANDARD_SEMANTIC_PREDICATES
 
-    P = lambda t: parse_isla(t, g, STANDARD_STRUCTURAL_PREDICATES, STANDARD_SEMANTIC_PREDICATES)
+    P = lambda t: parse_isla(t, g, STANDARD_STRUCTURAL_PREDICATES | {has_text_predicate()}, STANDARD_SEMANTIC_PREDICATES)
     try:
         f1 = P(text)
     except Exception as e:  # noqa
@@ -205,6 +239,8 @@ def check_text(ctx: Ctx, g, gname: str, text: str, trees, origin: str):
         ctx.count("checker", "conversion-failed:" + type(e).__name__)
     ctx.count("equal", f"isla=={eq}/alpha={alpha}")
     cls = ":smt-atom-renormalised" if only_smt_text else ""
+    if only_smt_text:
+        sig = "any"  # the cause is in Z3's printing of the atom, independent of where the constraint came from
     if u2 != u1:
         ctx.violation(f"second-unparse-differs:{sig}{cls}", f"unparse(parse(unparse(f))) differs from unparse(f): {u1!r} vs {u2!r}", dict(replay, second=u2))
     if alpha is False:
@@ -238,7 +274,7 @@ def run(ctx: Ctx):
         return "infra"
     logging.disable(logging.CRITICAL)
     rng = ctx.rng
-    fixed = {"assgn": ASSGN, "nums": NUMS, "text": TEXT}
+    fixed = {"assgn": ASSGN, "nums": NUMS, "text": TEXT, "crlf": CRLF}
     for gname, texts in SUGAR.items():
         trees = gen_tree_for(rng, fixed[gname])
         for text in texts:
@@ -264,6 +300,11 @@ def run(ctx: Ctx):
             a, b = rng.sample(SUGAR[gname], 2)
             op = rng.choice(["and", "or", "implies"])
             check_text(ctx, g, gname, f"({a}) {op} ({b})", trees, "sugar")
+            if rng.random() < 0.5:
+                # the SAME operand several times inside one propositional combination
+                c2 = rng.choice(SUGAR[gname])
+                shape = rng.choice(["(({a}) and ({b})) or (({a}) and ({c}))", "(({a}) implies ({b})) and (({a}) implies ({c}))", "(({a}) or ({b})) and (({a}) or not ({c})) and ({a})"])
+                check_text(ctx, g, gname, shape.format(a=a, b=b, c=c2), trees, "sugar-repeated")
     ctx.obligation("round trip: parse(unparse(f)) is accepted, equal to f (verified alpha-equivalence checker), unparses to the same text, same reference verdicts", not ctx.violations)
     if not ok and not ctx.violations:
         ctx.violation("proof-obligation-broken", "a proof obligation of C07 no longer checks", {"broken": [n for n, o, _ in ctx.obligations if not o]}, found_input=False)
